@@ -35,7 +35,7 @@ PROP = dict(
     nontrivial=c09_nontrivial,
     rule="goal/icmp: comparison matrix not all-equal and (a special value ±0/±inf/NaN occurs or the vectors have "
          "different lengths); iarith: vectors of different lengths; dom: at least two different orderings; "
-         "distinct = SHA-256 of the canonical case input",
+         "distinct = SHA-256 of the canonical case input Stream realgoal (30 cases): a pragmatic problem whose minimize-unassigned objective weighs skipped breaks by a fraction, solved twice; fitness and comparison matrix of the real contexts re-evaluated 12 times.",
     modelled="Goal::total_order, GoalBuilder::add_single comparator, dominance_order, multi-objective layer composition, "
              "impl Ord/PartialEq/Add/Sub for InsertionCost (bit-exact comparison; exact integer arithmetic)",
     out_of_model="f64 rounding of + and - (the inverse law is proved over Int and checked on integer-valued vectors)",
